@@ -73,9 +73,13 @@ var nontrivialRules = map[string]func(r *Runner) bool{
 	},
 	"C14": func(r *Runner) bool { return r.Cnt["configs_compared"] > 0 && r.Cnt["transcript_entries"] > 5 },
 	"C15": func(r *Runner) bool { return r.Cnt["puts"]+r.Cnt["batch_ops"] > 2 },
-	"C17": func(r *Runner) bool { return r.Cnt["stat_checks"] > 2 && r.Cnt["overwrites"]+r.Cnt["deletes_present"] > 0 },
+	"C17": func(r *Runner) bool {
+		return r.Cnt["stat_checks"] > 2 && r.Cnt["overwrites"]+r.Cnt["deletes_present"] > 0
+	},
 	"C18": func(r *Runner) bool { return r.Cnt["hint_checks"] > 0 && r.Cnt["hint_entries"] > 1 },
-	"C16": func(r *Runner) bool { return r.Cnt["opens_ok"] > 0 && r.Cnt["opens_rejected"]+r.Cnt["opens_failed_other"] > 0 },
+	"C16": func(r *Runner) bool {
+		return r.Cnt["opens_ok"] > 0 && r.Cnt["opens_rejected"]+r.Cnt["opens_failed_other"] > 0
+	},
 	"C19": func(r *Runner) bool { return r.Cnt["dt_commands"] > 5 },
 	"C20": func(r *Runner) bool { return (r.Cnt["backups"] > 0 && len(r.States) > 2) || r.Cnt["conc_backups"] > 0 },
 }
